@@ -49,19 +49,24 @@ def hex2 (b : UInt8) : List UInt8 := [hexLower (b >>> 4), hexLower (b &&& 15)]
 /-- the bytes `serialize_name` writes verbatim: `'!'..='~'` except the delimiters and `#` -/
 def nameVerbatim (b : UInt8) : Bool := 33 ≤ b && b ≤ 126 && !isDelimiter b && b != 35
 
+/-- one byte of a name as `serialize_name` writes it -/
+def nameEscape (b : UInt8) : List UInt8 := if nameVerbatim b then [b] else 35 :: hex2 b
+
 /-- `serialize_name(s, out)` (`s` as UTF-8 bytes) -/
-def serializeName (s : List UInt8) : List UInt8 :=
-  47 :: s.flatMap fun b => if nameVerbatim b then [b] else 35 :: hex2 b
+def serializeName (s : List UInt8) : List UInt8 := 47 :: s.flatMap nameEscape
+
+/-- one byte of a literal string as `PdfString::serialize` writes it -/
+def litEscape (b : UInt8) : List UInt8 :=
+  if b == 92 || b == 40 || b == 41 then [92, b]
+  else if b == 13 then [92, 114]
+  else [b]
 
 /-- `PdfString::serialize` -/
 def serializeString (data : List UInt8) : List UInt8 :=
   if data.any (fun b => b ≥ 128) then
     60 :: data.flatMap hex2 ++ [62]
   else
-    40 :: data.flatMap (fun b =>
-      if b == 92 || b == 40 || b == 41 then [92, b]
-      else if b == 13 then [92, 114]
-      else [b]) ++ [41]
+    40 :: data.flatMap litEscape ++ [41]
 
 /-- the `Primitive::Number` arm: `Display` text, with a `.` appended when it has none -/
 def serializeReal (txt : List UInt8) : List UInt8 :=
